@@ -2,4 +2,5 @@ pub mod engine;
 pub mod gen;
 pub mod oracle;
 pub mod props;
+pub mod scalars;
 pub mod sut;
